@@ -1,5 +1,6 @@
 """C06 Final ranking: minimum over variants, ascending order, normalised probabilities."""
 import csv, io, json, math, os, random
+from checks import common
 from harness import scratch, tlc, evidence, coord, pool
 
 PID = "C06"
@@ -56,6 +57,9 @@ def run(tier, replay=None):
     r.add_tlc(res, "rank_model")
     for v in res["violated"]:
         r.violation("model:" + v, "Rank.tla invariant %s violated (the relation itself is inconsistent)" % v)
+    # tables of any size (TLAPS): rows satisfying row_per_unique, minimum_over_variants and non_decreasing have a first row that no variant beats
+    common.prove(r, "RankProofs", tier, "the top row of a table satisfying Rank!Combine is not beaten by any variant (tables of any size)", selftests=[
+        ("RankProofs.tla", "MinOverVariants(rows), NonDecreasing(rows), NEW v", "MinOverVariants(rows), NEW v")])
     tables = [{"U": 2, "tab": t} for t in res["json"] if isinstance(t, list)]
     exhaustive = nsample is None
     if nsample is not None and len(tables) > nsample:
